@@ -618,23 +618,36 @@ Proof.
 Qed.
 
 (* ---- the accessors of RE that read the cached derivative classes ---- *)
+Lemma re_fwd_empty_complement e : M_RE_empty_complement e = M_CharPartition_empty_complement (RE_deriv_class e).
+Proof. unfold M_RE_empty_complement, RE_empty_complement. gauto. Qed.
+Lemma re_fwd_num_deriv_classes e : M_RE_num_deriv_classes e = M_CharPartition_len (RE_deriv_class e).
+Proof. unfold M_RE_num_deriv_classes, RE_num_deriv_classes. gauto. Qed.
+Lemma re_fwd_valid_class_id e c : M_RE_valid_class_id e c = M_CharPartition_valid_class_id (RE_deriv_class e) c.
+Proof. unfold M_RE_valid_class_id, RE_valid_class_id. gauto. Qed.
+Lemma re_fwd_pick_class_rep e c : M_RE_pick_class_rep e c = M_CharPartition_pick_in_class (RE_deriv_class e) c.
+Proof. unfold M_RE_pick_class_rep, RE_pick_class_rep. gauto. Qed.
+Lemma re_fwd_class_of_char fuel e x : M_RE_class_of_char fuel e x = M_CharPartition_class_of_char fuel (RE_deriv_class e) x.
+Proof. unfold M_RE_class_of_char, RE_class_of_char. gauto. Qed.
+Lemma re_fwd_class_of_set fuel e s : M_RE_class_of_set fuel e s = M_CharPartition_class_of_set fuel (RE_deriv_class e) s.
+Proof. unfold M_RE_class_of_set, RE_class_of_set. gauto. Qed.
+
 Lemma link_re_empty_complement e : M_RE_empty_complement e = Some (pempty_complement (rcls (conv_re e))).
-Proof. unfold M_RE_empty_complement, RE_empty_complement. rewrite link_empty_complement, rcls_conv. reflexivity. Qed.
+Proof. rewrite re_fwd_empty_complement, link_empty_complement, rcls_conv. reflexivity. Qed.
 Lemma link_re_num_deriv_classes e : M_RE_num_deriv_classes e = Some (plen (rcls (conv_re e))).
-Proof. unfold M_RE_num_deriv_classes, RE_num_deriv_classes. rewrite link_len, rcls_conv. reflexivity. Qed.
+Proof. rewrite re_fwd_num_deriv_classes, link_len, rcls_conv. reflexivity. Qed.
 Lemma link_re_valid_class_id e c : M_RE_valid_class_id e c = Some (pvalid (rcls (conv_re e)) (convc c)).
-Proof. unfold M_RE_valid_class_id, RE_valid_class_id. rewrite link_valid_class_id, rcls_conv. reflexivity. Qed.
+Proof. rewrite re_fwd_valid_class_id, link_valid_class_id, rcls_conv. reflexivity. Qed.
 Lemma link_re_is_empty e : M_RE_is_empty e = Some (is_empty_node (conv_re e)).
 Proof.
   unfold M_RE_is_empty, RE_is_empty, is_empty_node. rewrite rnode_conv. destruct (RE_expr e); reflexivity.
 Qed.
 Lemma link_re_pick_class_rep e c : M_RE_pick_class_rep e c = ppick (rcls (conv_re e)) (convc c).
-Proof. unfold M_RE_pick_class_rep, RE_pick_class_rep. rewrite link_pick_in_class, rcls_conv. reflexivity. Qed.
+Proof. rewrite re_fwd_pick_class_rep, link_pick_in_class, rcls_conv. reflexivity. Qed.
 Lemma link_re_class_of_char e x :
   option_map convc (M_RE_class_of_char (S (length (CharPartition_list (RE_deriv_class e)))) e x)
   = pclass_of_char (rcls (conv_re e)) x.
-Proof. unfold M_RE_class_of_char, RE_class_of_char. rewrite link_class_of_char, rcls_conv. reflexivity. Qed.
+Proof. rewrite re_fwd_class_of_char, link_class_of_char, rcls_conv. reflexivity. Qed.
 Lemma link_re_class_of_set e s :
   option_map convres (M_RE_class_of_set (S (length (CharPartition_list (RE_deriv_class e)))) e s)
   = pclass_of_set (rcls (conv_re e)) (conv s).
-Proof. unfold M_RE_class_of_set, RE_class_of_set. rewrite link_class_of_set, rcls_conv. reflexivity. Qed.
+Proof. rewrite re_fwd_class_of_set, link_class_of_set, rcls_conv. reflexivity. Qed.
